@@ -99,6 +99,11 @@ func (c02Suite) Gen(rng *Rng, tier string, w *bufio.Writer, stats *Stats) {
 	if tier == "thorough" {
 		nrandom, perLevel = 24, 500
 	}
+	// focused cases take a constant graph seed, so that adding a family does not shift the random stream of the generated queries
+	emitFixedSeed := func(tag, q string) {
+		n++
+		fmt.Fprintf(w, "# case %d %s\nq %s %d %d %d %d\n", n, tag, jsonQuote(q), 7, nrandom, 0, 0)
+	}
 	emit := func(tag, q string, exN, exE int) {
 		n++
 		fmt.Fprintf(w, "# case %d %s\nq %s %d %d %d %d\n", n, tag, jsonQuote(q), rng.Intn(1<<20), nrandom, exN, exE)
@@ -106,6 +111,16 @@ func (c02Suite) Gen(rng *Rng, tier string, w *bufio.Writer, stats *Stats) {
 	for _, q := range c02Fixed {
 		emit("fixed", q, 2, 2)
 		stats.Inc("fixed")
+	}
+	for _, fam := range []struct {
+		name string
+		qs   []string
+	}{{"suffix", focusedSuffixShapes()}, {"aggregate", focusedAggregateShapes()}, {"agg-traversal", focusedAggTraversalShapes()},
+		{"collect-membership", focusedCollectMembershipShapes()}, {"scope", focusedScopeShapes()}} {
+		for _, q := range fam.qs {
+			emitFixedSeed("focused:"+fam.name, q)
+			stats.Inc("focused." + fam.name)
+		}
 	}
 	for _, c := range LoadCypherCorpus() {
 		if c.Negative || len(c.Params) > 0 {
